@@ -15,6 +15,7 @@ from vlib.harness import V, derive_seed, REPO
 from vlib.lib import call, mod
 
 PROPERTY = 'C17'
+AMBIENT_PASS = True        # the same search once more under unusual ambient settings (vlib.run.AMBIENT_SETTINGS)
 RULE = ('finite core enumerated completely: events {SP, DT, HT, JT, WT} x gender {M, F, other} x every age-group label '
         'calc_uka_age_group produces (obtained by calling it over birth years 0..114 in all categories/options) + the labels the '
         'implement tables name + V115/V120; plus Hypothesis-generated arbitrary labels and non-throw codes from the event-code '
@@ -23,6 +24,7 @@ RULE = ('finite core enumerated completely: events {SP, DT, HT, JT, WT} x gender
         'non-increasing over V35..V120, pass-through of other codes, table keys accepted by check_event_code; non-trivial = '
         'an age group >= V80, or one with no tabulated weight, or a non-integral weight, or a table key; distinct (event, '
         'gender, group) / keys')
+RULE = RULE + '; the other generic throws of the vocabulary (SWT, BT, ST, GDT, CT, OT, seated variants ...) pass through or get a valid normalised code of the same event'
 ASSUMPTIONS = ['weights are compared as decimals (kg; grams for JT) after parsing the number back out of the built code']
 
 THROWS5 = ['SP', 'DT', 'HT', 'JT', 'WT']
